@@ -482,6 +482,7 @@ class Inliner:
                     break
                 fn.body = nb
                 caller_names = {n.id for n in ast.walk(fn) if isinstance(n, ast.Name)} | {a.arg for a in fn.args.args}
+            _fold_inlined_result_aliases(fn)
             # nested functions (closures such as the writer's subxml or semiparse)
         # a helper whose every use was inlined is dead code now: drop its definition so that the tree has the shape it had before the extraction
         self.removed = []
@@ -507,6 +508,63 @@ class Inliner:
         ast.fix_missing_locations(self.tree)
 
 
+def _fold_inlined_result_aliases(fn):
+    """An inlined helper that builds its result in a local leaves `L__k = ...; ...; T = L__k` behind when the caller's
+    target T has the helper-local's own name (or any other name).  When T is not mentioned between the first binding of
+    L__k and the alias statement, and L__k is not mentioned after it, L__k simply IS T: rename and drop the alias."""
+    import re as _re
+
+    changed = True
+    while changed:
+        changed = False
+        for node in ast.walk(fn):
+            for field in ("body", "orelse", "finalbody"):
+                block = getattr(node, field, None)
+                if not isinstance(block, list):
+                    continue
+                for i, st in enumerate(block):
+                    # inl__k = X  (the helper returned one of its locals, which inlining turned into the caller's X): use X
+                    if isinstance(st, ast.Assign) and len(st.targets) == 1 and isinstance(st.targets[0], ast.Name) and _re.search(r"__\d+$", st.targets[0].id) \
+                            and isinstance(st.value, ast.Name) and not _re.search(r"__\d+$", st.value.id):
+                        tmp, src = st.targets[0].id, st.value.id
+                        stores = [n for n in ast.walk(fn) if isinstance(n, ast.Name) and n.id == tmp and isinstance(n.ctx, ast.Store)]
+                        rest = block[i + 1:]
+                        src_rebound = any(isinstance(n, ast.Name) and n.id == src and isinstance(n.ctx, (ast.Store, ast.Del)) for b in rest for n in ast.walk(b))
+                        outside = [n for n in ast.walk(fn) if isinstance(n, ast.Name) and n.id == tmp and n is not st.targets[0] and not any(n is m for b in rest for m in ast.walk(b))]
+                        if len(stores) == 1 and not src_rebound and not outside:
+                            for b in rest:
+                                for n in ast.walk(b):
+                                    if isinstance(n, ast.Name) and n.id == tmp:
+                                        n.id = src
+                            del block[i]
+                            changed = True
+                            break
+                    if not (isinstance(st, ast.Assign) and len(st.targets) == 1 and isinstance(st.targets[0], ast.Name) and isinstance(st.value, ast.Name)
+                            and _re.search(r"__\d+$", st.value.id)):
+                        continue
+                    tmp, tgt = st.value.id, st.targets[0].id
+                    first = next((j for j, b in enumerate(block[:i]) if any(isinstance(n, ast.Name) and n.id == tmp for n in ast.walk(b))), None)
+                    if first is None:
+                        continue
+                    between = block[first:i]
+                    if any(isinstance(n, ast.Name) and n.id == tgt for b in between for n in ast.walk(b)):
+                        continue
+                    elsewhere = [n for n in ast.walk(fn) if isinstance(n, ast.Name) and n.id == tmp and not any(n is m for b in between + [st] for m in ast.walk(b))]
+                    if elsewhere:
+                        continue
+                    for b in between:
+                        for n in ast.walk(b):
+                            if isinstance(n, ast.Name) and n.id == tmp:
+                                n.id = tgt
+                    del block[i]
+                    changed = True
+                    break
+                if changed:
+                    break
+            if changed:
+                break
+
+
 class _Unroller(ast.NodeTransformer):
     """for x in (A, B, C): body  ->  body[x:=A]; body[x:=B]; body[x:=C]   (literal or module-level constant tuples only)"""
 
@@ -521,8 +579,69 @@ class _Unroller(ast.NodeTransformer):
             return it.elts
         return None
 
+    def _zip_prefix(self, node):
+        """for a, d in zip((A, B, C), xs): body  ->  try: body[a:=A, d:=xs[0]]; body[a:=B, d:=xs[1]]; ... except IndexError: pass
+        zip stops at the shorter operand, so exactly the leading len(xs) rounds run - as the subscripts do until the first one
+        that is out of range.  Only when xs is a list bound once in the enclosing function (findall/split/list display; checked by
+        the caller through self.lists) and the body is a run of setattr/assignment statements that apply a builtin converter to
+        d, so that nothing else in it can raise IndexError."""
+        it = node.iter
+        if not (isinstance(it, ast.Call) and isinstance(it.func, ast.Name) and it.func.id == "zip" and len(it.args) == 2 and not it.keywords):
+            return None
+        const, xs = it.args
+        elts = self._elements(const)
+        if elts is None or not isinstance(xs, ast.Name) or xs.id not in self.lists:
+            return None
+        if not (isinstance(node.target, ast.Tuple) and len(node.target.elts) == 2 and all(isinstance(t, ast.Name) for t in node.target.elts)) or node.orelse:
+            return None
+        if not all(isinstance(e, ast.Constant) for e in elts):
+            return None
+        a, d = (t.id for t in node.target.elts)
+        for st in node.body:
+            ok = (isinstance(st, ast.Expr) and isinstance(st.value, ast.Call) and isinstance(st.value.func, ast.Name) and st.value.func.id == "setattr") or \
+                 (isinstance(st, ast.Assign) and len(st.targets) == 1 and isinstance(st.targets[0], (ast.Attribute, ast.Name)))
+            if not ok:
+                return None
+            for n in ast.walk(st):
+                if isinstance(n, (ast.Subscript, ast.Lambda, ast.Starred)):
+                    return None
+                if isinstance(n, ast.Call) and not (isinstance(n.func, ast.Name) and n.func.id in ("setattr", "float", "int", "str", "abs")):
+                    return None
+                if isinstance(n, ast.Name) and n.id in (a, d, xs.id) and isinstance(n.ctx, (ast.Store, ast.Del)):
+                    return None
+        body = []
+        for i, e in enumerate(elts):
+            sub = _Subst({a: e, d: ast.Subscript(value=ast.Name(id=xs.id, ctx=ast.Load()), slice=ast.Constant(value=i), ctx=ast.Load())}, {})
+            for st in node.body:
+                body.append(sub.visit(copy.deepcopy(st)))
+        tr = ast.Try(body=body, handlers=[ast.ExceptHandler(type=ast.Name(id="IndexError", ctx=ast.Load()), name=None, body=[ast.Pass()])], orelse=[], finalbody=[])
+        self.count += 1
+        return [ast.copy_location(tr, node)]
+
+    def visit_FunctionDef(self, node):
+        # lists: locals bound exactly once, to something that is a list
+        saved = getattr(self, "lists", set())
+        binds = {}
+        for n in ast.walk(node):
+            if isinstance(n, ast.Name) and isinstance(n.ctx, (ast.Store, ast.Del)):
+                binds[n.id] = binds.get(n.id, 0) + 1
+        lists = set()
+        for n in ast.walk(node):
+            if isinstance(n, ast.Assign) and len(n.targets) == 1 and isinstance(n.targets[0], ast.Name) and binds.get(n.targets[0].id) == 1:
+                v = n.value
+                if isinstance(v, (ast.List, ast.ListComp)) or (isinstance(v, ast.Call) and ((isinstance(v.func, ast.Attribute) and v.func.attr in ("findall", "split")) or
+                                                                                          (isinstance(v.func, ast.Name) and v.func.id in ("list", "sorted")))):
+                    lists.add(n.targets[0].id)
+        self.lists = lists - {a.arg for a in node.args.args + node.args.kwonlyargs}
+        self.generic_visit(node)
+        self.lists = saved
+        return node
+
     def visit_For(self, node):
         self.generic_visit(node)
+        z = self._zip_prefix(node) if hasattr(self, "lists") else None
+        if z is not None:
+            return z
         elts = self._elements(node.iter)
         if elts is None or node.orelse:
             return node
@@ -765,6 +884,27 @@ def inline_new_temporaries(tree, table):
     return count
 
 
+def _factory_call(expr):
+    """Class(args) / Class.method(args) with arguments that are arithmetic over plain names and constants"""
+    if not isinstance(expr, ast.Call) or expr.keywords:
+        return False
+    f = expr.func
+    head = f.id if isinstance(f, ast.Name) else f.value.id if isinstance(f, ast.Attribute) and isinstance(f.value, ast.Name) else None
+    if head is None or not head[:1].isupper():
+        return False
+
+    def arith(e):
+        if isinstance(e, (ast.Constant, ast.Name)):
+            return True
+        if isinstance(e, ast.UnaryOp):
+            return arith(e.operand)
+        if isinstance(e, ast.BinOp):
+            return arith(e.left) and arith(e.right)
+        return False
+
+    return all(arith(a) for a in expr.args)
+
+
 def _substitute_once(fn, name):
     # find the statement list holding `name = expr`
     for node in ast.walk(fn):
@@ -783,6 +923,13 @@ def _substitute_once(fn, name):
                             nxt.value = expr
                             del block[i]
                             return True
+                    # `t = Class.factory(<arithmetic over locals>)` immediately followed by `<target> op= t`: the factory reads only
+                    # its arguments, so where it is evaluated relative to the load of the target does not matter
+                    if i + 1 < len(block) and isinstance(block[i + 1], ast.AugAssign) and isinstance(block[i + 1].value, ast.Name) and block[i + 1].value.id == name \
+                            and _factory_call(expr) and not any(isinstance(n, ast.Name) and n.id == name for n in ast.walk(block[i + 1].target)):
+                        block[i + 1].value = expr
+                        del block[i]
+                        return True
                     if not _side_effect_free(expr):
                         return False
                     reads = {n.id for n in ast.walk(expr) if isinstance(n, ast.Name)}
